@@ -13,6 +13,8 @@ def main():
     sys.setrecursionlimit(spec.get('recursionlimit', 1000))
     mod = importlib.import_module('vf.checks.' + check_id.lower())
     ctx = core.Ctx(spec, outp, crumbp)
+    if spec.get('case_limit_s') != 0 and not spec.get('wrap'):
+        ctx.start_heartbeat(spec.get('case_limit_s', 240))
     try:
         if spec.get('kind') == 'replay':
             for case in spec['cases']:
